@@ -7,7 +7,7 @@ import weakref
 from dataclasses import dataclass
 from common import args, Report, guarded
 
-from test.dataset.university_ontology_like_classes import Company, Person
+from test.dataset.university_ontology_like_classes import Company, Person, CEO
 from krrood.entity_query_language.symbol_graph import SymbolGraph
 from krrood.entity_query_language.predicate import Symbol
 from krrood.entity_query_language.symbolic import SymbolicExpression
@@ -46,6 +46,21 @@ def scenario(relate, query, consume):
         cs[1].members.add(ps[2])
     elif relate == "sub_org":
         cs[0].sub_organization_of = [cs[1]]
+    elif relate == "role":
+        # a relation asserted on a ROLE of a person (inferred on the role taker), then the role is dropped with the rest
+        ceo = CEO(person=ps[0])
+        refs.append(weakref.ref(ceo))
+        ceo.head_of = cs[1]
+        del ceo
+    elif relate == "read-back":
+        # the managed fields are also READ (containers and single values), not only written
+        cs[1].members.add(ps[2])
+        ps[1].member_of.append(cs[0])
+        seen = [len(cs[1].members), len(ps[1].member_of), ps[2].works_for, list(cs[0].members), cs[0].sub_organization_of]
+        del seen
+    elif relate == "two-kinds-on-one-pair":
+        ps[0].works_for = cs[0]          # asserts WorksFor and infers MemberOf on the same ordered pair
+        ps[0].member_of.append(cs[0])
     q = None
     if query == "explicit-domain":
         v = let(Person, ps)
@@ -100,7 +115,7 @@ scenario("works_for", "explicit-domain", "all")
 gc.collect()
 SymbolGraph().remove_dead_instances()
 
-for relate, query, consume in itertools.product(["none", "works_for", "members", "sub_org"], ["no-query", "explicit-domain", "implicit-domain", "two-variables"], ["all", "first", "none"]):
+for relate, query, consume in itertools.product(["none", "works_for", "members", "sub_org", "role", "read-back", "two-kinds-on-one-pair"], ["no-query", "explicit-domain", "implicit-domain", "two-variables"], ["all", "first", "none"]):
     if query == "no-query" and consume != "all":
         continue
     gc.collect()
